@@ -105,6 +105,7 @@ package ociserver
 //@   ensures[range-within-blob] result == nil && status() == 206 ==>
 //@   0 <= ranges[0].start && ranges[0].start <= rng.end && rng.end <= desc.Size &&
 //@   rng.end == ((ranges[0].end == -1 || ranges[0].end > desc.Size) ? desc.Size : ranges[0].end)
+//@   ensures[a-range-inside-the-blob-is-never-refused] len(ranges) == 1 && ncallsOf("withHTTPCode") >= 1 ==> rng.start > desc.Size || rng.end < rng.start
 //@   ensures[range-headers] result == nil && status() == 206 ==>
 //@   header("Content-Length") == itoa(rng.end - ranges[0].start) &&
 //@   header("Content-Range") == "bytes " + itoa(ranges[0].start) + "-" + itoa(rng.end - 1) + "/" + itoa(desc.Size) &&
@@ -253,4 +254,10 @@ package ociserver
 
 //@ func New
 //@   requires backend != nil
+//@   ensures result != nil
+
+// (logged so that handlers can state when they refuse with an explicit status)
+//@ func withHTTPCode
+//@   log
+//@   modifies nothing
 //@   ensures result != nil
